@@ -21,6 +21,12 @@ STRUCTURAL = {"PrefixMap::insert", "VacantEntry::_insert", "PrefixMap::new_node"
               "PrefixMap::remove", "PrefixMap::remove_children", "PrefixMap::_retain", "PrefixMap::retain",
               "Table::set_child", "Table::clear_child", "<Table as Default>::default"}
 CANONICAL_OPS = ("PrefixMap::insert", "PrefixMap::remove")
+VALUE_ONLY = ["PrefixMap::remove_keep_tree", "PrefixMap::get_mut", "PrefixMap::get_lpm_mut", "<IterMut as Iterator>::next",
+              "<ValuesMut as Iterator>::next", "Entry::get_mut", "Entry::and_modify", "Entry::or_insert", "Entry::or_insert_with",
+              "Entry::or_default", "Entry::insert", "OccupiedEntry::get_mut", "OccupiedEntry::insert", "OccupiedEntry::remove",
+              "TrieViewMut::set", "TrieViewMut::remove", "TrieViewMut::value_mut", "TrieViewMut::prefix_value_mut",
+              "<UnionMut as Iterator>::next", "<IntersectionMut as Iterator>::next", "<DifferenceMut as Iterator>::next",
+              "<CoveringDifferenceMut as Iterator>::next"]
 ASSUMES = ["C17 prefix algebra (relation oracle, side rules S1-S3)", "pre-state is a well-formed trie", "pt/models.py std model"]
 LEVEL_TEXT = __doc__
 
@@ -111,7 +117,7 @@ def run_config(ctx, rep, cfg, F):
                 else:
                     rep.bad("R15.2", where, "prefix:=non-equal", "%s: %s overwrites the prefix %s of node %s with %s, which is not "
                             "known to be the same key (relation %s)" % (where, e["fn"], e["old"], e["node"], e["new"], e["rel"]), config=cfg)
-    rep.floor("link writes audited (%s)" % cfg, n_links, 1000)
+    rep.floor("link writes audited (%s)" % cfg, n_links, 3500)
     # ---- R15.3
     n_canon = 0
     for where, paths, _ in progs:
@@ -148,42 +154,37 @@ def run_config(ctx, rep, cfg, F):
                     if lost and st.get("value") != "S":
                         rep.bad("R15.3", where, "lost-child-unchecked", "%s: node %s loses a child without its value / other child "
                                 "being examined: it may be left value-less with one child (inputs: %s)" % (where, k, C.inputs_str(p, 14)), config=cfg)
-    rep.floor("canonicity post-states checked (%s)" % cfg, n_canon, 100)
-    # ---- R15.4
-    muts = c04.mutator_set(F)
+    rep.floor("canonicity post-states checked (%s)" % cfg, n_canon, 3500)
+    # ---- R15.4: the public value-only operations (named by the property) have no structural effect
     n_shape = 0
-    for short in sorted(muts):
-        base = short.split("::{closure")[0]
-        if base in STRUCTURAL or base != short:
+    for base in VALUE_ONLY:
+        if base not in F.short:
+            rep.bad("R15.4", base, "missing", "%s not found" % base, kind="unrecognised", config=cfg)
             continue
         is_h, variant = c04.handle_of(F, base)
         if is_h:
-            key = (cfg, "entry;" + base)
-            paths = ctx._paths.get(key, [])
-            after_marker = True
+            paths = ctx._paths.get((cfg, "entry;" + base), [])
         else:
             opts = dict(OPTS)
             if "Iterator>::next" in base:
                 opts["loop_bound"] = 1
             paths = ctx.paths(F, base, opts)
-            after_marker = False
         for p in paths:
-            seen_method = not after_marker
+            seen_method = not is_h
+            vac = is_h and p.ev("handle") and p.ev("handle")[0]["variant"] == "Vacant"
             for e in p.events:
                 if e.kind == "method":
                     seen_method = True
                     continue
-                if not seen_method:
-                    continue
-                if is_h and p.ev("handle") and p.ev("handle")[0]["variant"] == "Vacant":
-                    break  # vacant insertion is structural by design
+                if not seen_method or vac:
+                    continue        # a vacant insertion is structural by design
                 if e.kind in ("link_write", "arena_push", "arena_clear") or (e.kind in ("vec_push", "vec_pop", "vec_clear") and e["vec"].endswith(".free")):
                     rep.bad("R15.4", base, e.kind, "%s is a value-only operation but performs %s" % (base, e), config=cfg)
                     break
             else:
                 n_shape += 1
         rep.ok("R15.4", base, "no structural effect")
-    rep.floor("value-only paths checked (%s)" % cfg, n_shape, 300)
+    rep.floor("value-only paths checked (%s)" % cfg, n_shape, 1200)
 
 
 def finalize(ctx, rep):
